@@ -18,12 +18,18 @@ class Opaque:
 
 
 class Stub:
-    """a host function value: records its calls and returns null"""
-    def __init__(self, n, log):
-        self.n, self.log = n, log
+    """a host function value: records its calls; returns the configured values in turn (default null) or raises"""
+    def __init__(self, n, log, behaviour=None, builder=None):
+        self.n, self.log, self.behaviour, self.builder = n, log, list(behaviour or []), builder
 
     def __call__(self, args, options=None):
         self.log.append(['call', self.n, len(args) if isinstance(args, list) else None])
+        if self.behaviour:
+            b = self.behaviour.pop(0)
+            if 'raises' in b:
+                raise {'ValueError': ValueError, 'TypeError': TypeError, 'KeyError': KeyError,
+                       'ZeroDivisionError': ZeroDivisionError}.get(b['raises'], RuntimeError)('host function failure')
+            return self.builder.val(b.get('returns'))
         return None
 
 
@@ -59,7 +65,7 @@ class Builder:
                     return dt.replace(tzinfo=datetime.timezone.utc)
                 return dt
             if '$func' in x:
-                return Stub(x['$func'], self.calls)
+                return Stub(x['$func'], self.calls, x.get('behaviour'), self)
             if '$regex' in x:
                 return re.compile('x')
             if '$other' in x:
@@ -136,6 +142,18 @@ def main():
         fn = getattr(fn, part)
     args = [b.val(a) for a in job['args']]
     out = {}
+    for check in job.get('native_pre', []):
+        # native precondition checks (schema validity of models): an input that fails them is not a witness
+        try:
+            if check['kind'] == 'expression':
+                from bare_script.model import validate_expression
+                validate_expression(b.val(check['value']))
+            elif check['kind'] == 'script':
+                from bare_script.model import validate_script
+                validate_script(b.val(check['value']))
+        except Exception as e:  # pylint: disable=broad-except
+            print(json.dumps({'kind': 'precondition-failed', 'detail': f'{type(e).__name__}: {e}'[:300]}))
+            return
     try:
         result = fn(*args)
         out['kind'] = 'return'
